@@ -260,6 +260,16 @@ OuterUsedT(S, T, k) ==
                 : n \in CombNodes(S[ci]) }
         : ci \in 1..Len(S) }
 
+(* bits given meaning by # FIELDS (of constructors or functions) whose value flows into parameter k of T *)
+RECURSIVE FieldFlowT(_, _, _), FieldFlowVar(_, _, _)
+FieldFlowVar(S, ci, x) ==
+  IF x \in Range(S[ci].targs) /\ ~S[ci].fn THEN FieldFlowT(S, S[ci].typ, IndexOf(S[ci].targs, x)) ELSE UsedVar(S, ci, x) \ {SIZE}
+FieldFlowT(S, T, k) ==
+  UNION { UNION { IF ~(n.t \in Builtins) /\ TypeOfRef(S, n.t) = T /\ k <= Len(n.args) /\ n.args[k].k = "r"
+                  THEN FieldFlowVar(S, ci, n.args[k].r) ELSE {}
+                : n \in CombNodes(S[ci]) }
+        : ci \in 1..Len(S) }
+
 (* classification of bit b for a field appended to combinator ci of schema S under mask x: *)
 (*   "used"  - given meaning in the combinator or in an outer scope (documented)           *)
 (*   "set"   - not given meaning, but a constant passed in sets it, or x is an array size  *)
@@ -508,9 +518,11 @@ RemoveTemplateArg(O, S) ==
     IN [s |-> S2, e |-> Entry("RemoveTemplateArg", FALSE, TRUE, T, IF referenced THEN "referenced" ELSE "unreferenced", ~referenced, T)]
     : T \in {T \in TypeNames(S) : OldType(O, T) /\ Len(S[CHOOSE i \in CtorsOfType(S, T) : TRUE].targs) > 0} }
 
-(* one-point changes of a type expression: [te, sub, benign].  A change of a nat argument is  *)
-(* benign (no effect on the wire) when the parameter it feeds has no meaning in the callee,  *)
-(* or when both constants agree on the meaningful bits.                                      *)
+(* one-point changes of a type expression: [te, sub, benign].  benign = "not claimed to      *)
+(* break the wire": a nat argument feeding a parameter without meaning in the callee, or two *)
+(* constants that agree on the callee's mask bits (if the parameter is also an array size    *)
+(* under one of those masks the change may or may not matter).  UnsafeBreaks is asserted for *)
+(* every instance that is not flagged.                                                       *)
 NextScalar(t) == CASE t = "int" -> "long" [] t = "long" -> "string" [] t = "string" -> "int"
 Alt(te, sub) == [te |-> te, sub |-> sub, benign |-> FALSE]
 TopAlts(S, te) ==
@@ -525,7 +537,7 @@ TopAlts(S, te) ==
 NatAlts(a, vars, U) ==     \* U: the meaning the callee gives to this parameter
   IF a.k = "n"
   THEN LET n2 == (a.n + 1) % 4 IN
-       {[a |-> ArgN(n2), sub |-> "natconst", benign |-> ~(SIZE \in U) /\ (BitsOfNum(a.n) \cap U) = (BitsOfNum(n2) \cap U)]}
+       {[a |-> ArgN(n2), sub |-> "natconst", benign |-> U # {SIZE} /\ (BitsOfNum(a.n) \cap U) = (BitsOfNum(n2) \cap U)]}
   ELSE {[a |-> ArgN(0), sub |-> "natref-to-const", benign |-> U = {}]}
        \cup {[a |-> ArgR(y), sub |-> "natref", benign |-> U = {}] : y \in vars \ {a.r}}
 ParamUse(S, te, k) == IF te.t = "Tuple" THEN {SIZE} ELSE IF te.t \in Builtins THEN {} ELSE UsedT(S, te.t, k)
@@ -582,7 +594,8 @@ AppendUnmaskedField(O, S) ==
 ReuseUsedBit(O, S) ==
   { [s |-> SetFields(S, q[1], Append(S[q[1]].fields, Field(FreshField(S[q[1]], "zr"), TInt, q[2], q[3]))),
      e |-> Entry("ReuseUsedBit", FALSE, TRUE, S[q[1]].name,
-                 IF q[3] \in (UsedVar(S, q[1], q[2]) \ {SIZE}) THEN "local" ELSE "outer-scope", FALSE, q)]
+                 IF q[3] \in (UsedVar(S, q[1], q[2]) \ {SIZE}) THEN "local"
+                 ELSE IF q[3] \in FieldFlowVar(S, q[1], q[2]) THEN "outer-scope" ELSE "outer-scope-template-parameter", FALSE, q)]
     : q \in { q \in (1..Len(S)) \X AllNatVars(S) \X Bits :
                 /\ q[2] \in NatVars(S[q[1]])
                 /\ OldBitClass(O, S, q[1], q[2], q[3]) = "used" } }
